@@ -13,6 +13,8 @@ import (
 	"golang.org/x/tools/go/ssa"
 )
 
+var decStats map[string]int
+
 type decision struct {
 	alts []int
 	cur  int
@@ -87,7 +89,8 @@ type Interp struct {
 	seed     int64
 
 	// per path
-	pc              []*Term
+	pc        []*Term
+	pcSet     map[int]bool
 	stack           []*decision
 	depth           int
 	fresh           int
@@ -152,6 +155,15 @@ func (in *Interp) assume(c *Term) {
 	if c.IsTrue() {
 		return
 	}
+	if c.op == "and" {
+		in.assume(c.args[0])
+		in.assume(c.args[1])
+		return
+	}
+	if in.pcSet[c.id] {
+		return
+	}
+	in.pcSet[c.id] = true
 	in.pc = append(in.pc, c)
 }
 
@@ -172,10 +184,13 @@ func (in *Interp) choose(conds []*Term) int {
 				d.alts = append(d.alts, i)
 				continue
 			}
-			if len(conds) == 2 && i == 1 && len(d.alts) == 0 && conds[1] == Not(conds[0]) {
+			if len(conds) == 2 && i == 1 && len(d.alts) == 0 && (conds[1] == Not(conds[0]) || conds[0] == Not(conds[1])) {
 				// pc is satisfiable and pc ∧ c0 is not, hence pc ∧ ¬c0 is
 				d.alts = append(d.alts, i)
 				continue
+			}
+			if in.curFn != nil {
+				in.sol.ctx = "branch in " + in.curFn.String()
 			}
 			r := in.sol.Check(in.pc, c)
 			if r == "unknown" {
@@ -187,6 +202,9 @@ func (in *Interp) choose(conds []*Term) int {
 		}
 		if len(d.alts) == 0 {
 			in.end("infeasible", "no alternative")
+		}
+		if decStats != nil && in.curFn != nil {
+			decStats[fmt.Sprintf("%s alts=%d/%d", in.curFn.String(), len(d.alts), len(conds))]++
 		}
 		in.stack = append(in.stack, d)
 	}
@@ -205,6 +223,19 @@ func (in *Interp) branch(c *Term) bool {
 		return false
 	}
 	return in.choose([]*Term{c, Not(c)}) == 0
+}
+
+// guard is branch for run-time checks (bounds, nil, division): the failing side
+// is examined first; when it is infeasible the passing side needs no query
+// (the path condition is satisfiable by construction).
+func (in *Interp) guard(ok *Term) bool {
+	if ok.IsTrue() {
+		return true
+	}
+	if ok.IsFalse() {
+		return false
+	}
+	return in.choose([]*Term{Not(ok), ok}) == 1
 }
 
 // chooseN makes an n-way engine-internal nondeterministic choice (all alternatives feasible).
@@ -310,23 +341,33 @@ func (in *Interp) model(extra *Term) map[string]string {
 		if inp.Arr == nil {
 			continue
 		}
-		n := int64(0)
-		if inp.Len != nil {
-			fmt.Sscan(m[inp.Name+".len"], &n)
+		// sparse model: the positions at which the path read the array
+		seen := map[int]bool{}
+		var idx []*Term
+		for _, t := range ufReads[inp.Arr.uf] {
+			if !seen[t.id] {
+				seen[t.id] = true
+				idx = append(idx, t)
+			}
 		}
-		if n > 4096 {
-			n = 4096
+		if len(idx) > 3000 {
+			idx = idx[:3000]
 		}
-		if n <= 0 {
-			m[inp.Name] = ""
-			continue
+		pos := in.sol.ModelMore(idx)
+		vals := make([]*Term, len(idx))
+		for k, p := range pos {
+			vals[k] = inp.Arr.Read(parseModelVal(p, SortInt))
 		}
-		idx := make([]*Term, n)
-		for i := range idx {
-			idx[i] = inp.Arr.Read(BV(64, int64(i)))
+		bs := in.sol.ModelMore(vals)
+		var parts []string
+		done := map[string]bool{}
+		for k := range idx {
+			if !done[pos[k]] {
+				done[pos[k]] = true
+				parts = append(parts, pos[k]+":"+bs[k])
+			}
 		}
-		bs := in.sol.ModelMore(idx)
-		m[inp.Name] = strings.Join(bs, ",")
+		m[inp.Name] = strings.Join(parts, ",")
 	}
 	in.sol.ModelEnd()
 	return m
@@ -336,6 +377,8 @@ func (in *Interp) model(extra *Term) map[string]string {
 func (in *Interp) Explore(fn *ssa.Function) {
 	for {
 		in.pc = nil
+		ufReads = map[string][]*Term{}
+		in.pcSet = map[int]bool{}
 		in.depth = 0
 		in.fresh = 0
 		in.inputs = nil
@@ -471,8 +514,9 @@ func (in *Interp) modelEq(m map[string]string) *Term {
 			}
 		}
 		if inp.Arr != nil && m[inp.Name] != "" {
-			for i, s := range strings.Split(m[inp.Name], ",") {
-				c = And(c, Eq(inp.Arr.Read(BV(64, int64(i))), parseModelVal(s, inp.Arr.ew)))
+			for _, s := range strings.Split(m[inp.Name], ",") {
+				kv := strings.SplitN(s, ":", 2)
+				c = And(c, Eq(inp.Arr.Read(parseModelVal(kv[0], SortInt)), parseModelVal(kv[1], inp.Arr.ew)))
 			}
 		}
 	}
@@ -701,6 +745,8 @@ func width(t types.Type) int {
 			return 32
 		case types.String, types.UntypedString, types.UnsafePointer, types.UntypedNil:
 			return -9
+		case types.Int, types.UntypedInt:
+			return SortInt
 		default:
 			return 64
 		}
@@ -717,6 +763,9 @@ func isFloat(t types.Type) bool {
 }
 func isScalar(t types.Type) bool {
 	b, ok := t.Underlying().(*types.Basic)
+	if ok && (b.Kind() == types.Int || b.Kind() == types.UntypedInt) {
+		return true
+	}
 	return ok && b.Kind() != types.String && b.Kind() != types.UnsafePointer && b.Kind() != types.UntypedNil
 }
 
@@ -742,14 +791,14 @@ func (in *Interp) zero(t types.Type) Value {
 		if w == 0 {
 			return Bool(false)
 		}
+		if w == SortInt {
+			return IntC(0)
+		}
 		if w > 0 {
-			if in.intMode && u.Info()&types.IsInteger != 0 {
-				return IntC(0)
-			}
 			return BV(w, 0)
 		}
 		if u.Info()&types.IsString != 0 {
-			return &StrV{node: zeroArr(8), off: BV(64, 0), len: BV(64, 0)}
+			return &StrV{node: zeroArr(8), off: IX(0), len: IX(0)}
 		}
 		return &PtrV{}
 	case *types.Pointer:
@@ -771,7 +820,7 @@ func (in *Interp) zero(t types.Type) Value {
 		return so
 	case *types.Slice:
 		if isScalar(u.Elem()) {
-			return &SliceV{obj: &ArrObj{node: zeroArr(width(u.Elem())), ew: width(u.Elem())}, off: BV(64, 0), len: BV(64, 0), cap: BV(64, 0), isNil: true}
+			return &SliceV{obj: &ArrObj{node: zeroArr(width(u.Elem())), ew: width(u.Elem())}, off: IX(0), len: IX(0), cap: IX(0), isNil: true}
 		}
 		return &SliceG{cells: &[]*Cell{}, isNil: true}
 	case *types.Interface:
@@ -794,7 +843,7 @@ func (in *Interp) zero(t types.Type) Value {
 }
 
 func (in *Interp) emptyBytes() *SliceV {
-	return &SliceV{obj: &ArrObj{node: zeroArr(8), ew: 8}, off: BV(64, 0), len: BV(64, 0), cap: BV(64, 0)}
+	return &SliceV{obj: &ArrObj{node: zeroArr(8), ew: 8}, off: IX(0), len: IX(0), cap: IX(0)}
 }
 
 func copyVal(v Value) Value {
@@ -824,11 +873,11 @@ func litStr(s string) *StrV {
 	if !ok {
 		n = zeroArr(8)
 		for i := 0; i < len(s); i++ {
-			n = n.Store(BV(64, int64(i)), BV(8, int64(s[i])))
+			n = n.Store(IX(int64(i)), BV(8, int64(s[i])))
 		}
 		litCache[s] = n
 	}
-	return &StrV{node: n, off: BV(64, 0), len: BV(64, int64(len(s)))}
+	return &StrV{node: n, off: IX(0), len: IX(int64(len(s)))}
 }
 
 func (in *Interp) constVal(c *ssa.Const) Value {
@@ -854,7 +903,7 @@ func (in *Interp) constVal(c *ssa.Const) Value {
 		if !ok {
 			in.unsupported("const %s", c)
 		}
-		if in.intMode {
+		if w == SortInt {
 			return IntBig(bi)
 		}
 		return BVbig(w, bi)
